@@ -177,6 +177,10 @@ def twotype_cases(draw, plain2=False):
             c = draw(st.sampled_from(comps))
             k = draw(st.sampled_from(["call", "call", "update", "temp", "temp", "save", "move", "yield", "yield", "selfupd",
                                       "if", "if", "exit", "norm", "norm", "abs"]))
+            if k == "norm" and plain2 and draw(st.integers(0, 2)) == 0:
+                # (C03 only: the initial value may hold a NaN in its first element) is any element of the vector NaN?
+                ops.append(["isnan", "<p>f_" + c, vec(c)])
+                continue
             if k == "norm":
                 # the same built-in applied to values of both user types (their generated routines differ)
                 f = draw(st.sampled_from(["<builtin>norm_2", "<builtin>norm_2", "<builtin>len"]))   # the ones with Fortran generators
@@ -245,6 +249,8 @@ def twotype_cases(draw, plain2=False):
         lp = ln + 1
     case = {"nested": nested, "plain": plain, "body": body, "steps": draw(st.integers(2, 5)),
             "len_nested": ln, "len_plain": lp, "plain2": plain2}
+    if plain2:
+        case["nan_first"] = draw(st.integers(0, 2)) == 0       # a NaN in the first element of the first component
     if plain2 and draw(st.integers(0, 9)) < 4:
         # the first component is a genuinely rectangular two-dimensional array
         case["len_nested"] = 6
@@ -270,6 +276,8 @@ def twotype_build(case):
                 cb.assign(var(op[1]), var(op[2]))
             elif k == "norm":
                 cb.assign(var(op[1]), var(op[2])(var(op[3])))
+            elif k == "isnan":
+                cb.assign(var(op[1]), var("<builtin>isnan")(var(op[2])))
             elif k == "abs":
                 cb.assign(var(op[1]), var("<builtin>elementwise_abs")(var(op[3])))
             elif k == "yield":
